@@ -428,6 +428,7 @@ pub fn property() -> Property {
                 signature: no_signature,
                 essential: &["limiter_exhausted_at_terminator", "limiter_not_exhausted", "explicit_call", "finish_using_style", "drop_last_handle", "iterator_exhausted", "clearing_variant", "second_completion_after_reset"],
                 workers: w,
+                decode: None,
             }),
             Box::new(Gen::<MultiCase> {
                 name: "multi",
@@ -438,6 +439,7 @@ pub fn property() -> Property {
                 signature: no_signature,
                 essential: &["limiter_exhausted_at_terminator", "finish_order_differs_from_visual_order", "visible_final_renderings"],
                 workers: w,
+                decode: Some(|u| decode_multi(u, 1)),
             }),
         ],
     }
